@@ -7,6 +7,8 @@ NEIGH = {'F1': 'C01 C03 C06 C07 C08 C09 C10', 'F2': 'C01 C03 C05 C06 C07 C09', '
          'F5': 'C11', 'F6': 'C12 C05 C07 C01 C11', 'F7': 'C04 C13 C14 C05', 'F8': 'C16', 'F9': 'C17 C18 C19', 'F10': 'C17 C18 C19',
          'T1': 'C01 C12 C08 C07 C11', 'T2': 'C02 C10 C11 C08 C07', 'T3': 'C08 C07 C01 C02 C06', 'T4': 'C06 C09 C12 C11 C16 C18', 'T5': 'C10 C06 C07 C18 C12',
          'T6': 'C01 C02 C11 C16 C17 C12 C05', 'T7': 'C04 C13 C14 C05', 'T8': 'C17 C18 C19', 'T9': 'C16 C03 C11 C14 C01', 'T10': 'C09 C03 C01 C02 C06',
+         'G1': 'C01 C03 C06 C07 C08 C09 C10', 'G2': 'C01 C03 C05 C06 C07 C09', 'G3': 'C02 C03 C06 C07 C08 C09 C10', 'G4': 'C02 C03 C05 C06 C07 C09',
+         'G5': 'C11 C02 C13', 'G6': 'C12 C05 C07 C01 C11 C16', 'G7': 'C04 C13 C14 C05', 'G8': 'C16', 'G9': 'C17 C18 C19', 'G10': 'C17 C18 C19',
          'C01': 'C01 C03 C09 C08 C06 C07', 'C02': 'C02 C03 C09 C10 C08 C07', 'C03': 'C03 C01 C02 C09', 'C04': 'C04 C13 C14 C05', 'C05': 'C05 C04 C14 C01',
          'C06': 'C06 C10 C07 C03', 'C07': 'C07 C06 C10 C08', 'C08': 'C08 C01 C02 C07', 'C09': 'C09 C03 C01 C02', 'C10': 'C10 C02 C06 C07', 'C11': 'C11 C02 C05 C12',
          'C12': 'C12 C11 C16 C07', 'C13': 'C13 C04 C14 C16', 'C14': 'C14 C13 C04 C05', 'C16': 'C16 C12 C01 C11', 'C17': 'C17 C18 C19', 'C18': 'C18 C17 C19', 'C19': 'C19 C17 C18'}
